@@ -14,6 +14,10 @@ import operator
 from typing import Dict, Iterable, Iterator, List, Optional, Tuple
 
 
+class HelperRaises(Exception):
+    """raised by a call hook when the helper it evaluates ends in a raise on the decided path"""
+
+
 class _Unknown:
     def __repr__(self):
         return 'UNK'
@@ -36,13 +40,14 @@ def text(node: ast.AST) -> str:
 
 
 class GuardEval:
-    def __init__(self, env: Dict[str, object], aliases: Optional[Dict[str, ast.AST]] = None):
+    def __init__(self, env: Dict[str, object], aliases: Optional[Dict[str, ast.AST]] = None, call_hook=None):
         self.env = dict(env)
         self.aliases = dict(aliases or {})
         self._depth = 0
+        self.call_hook = call_hook  # (call node, this evaluator) -> value or UNK: decided results of small helpers
 
     def child(self, **more):
-        g = GuardEval(self.env, self.aliases)
+        g = GuardEval(self.env, self.aliases, self.call_hook)
         g.env.update(more)
         return g
 
@@ -55,6 +60,8 @@ class GuardEval:
             return UNK
         try:
             return m(node)
+        except HelperRaises:
+            raise
         except Exception:
             return UNK
 
@@ -147,6 +154,8 @@ class GuardEval:
         if isinstance(n.func, ast.Name) and n.func.id in ('bool', 'int', 'abs') and len(n.args) == 1:
             v = self.eval(n.args[0])
             return UNK if v is UNK else {'bool': bool, 'int': int, 'abs': abs}[n.func.id](v)
+        if self.call_hook is not None:
+            return self.call_hook(n, self)
         return UNK
 
     def e_NamedExpr(self, n):
@@ -190,9 +199,16 @@ def specialise(stmts: Iterable[ast.stmt], ge: GuardEval, marks: Optional[dict] =
             if marks is not None:
                 marks[id(st)] = definite
             yield st
+            known = {}
+            if isinstance(st, ast.Assign) and len(st.targets) == 1 and isinstance(st.targets[0], ast.Name) and definite:
+                v = ge.eval(st.value)      # a local bound to a decided value keeps it for the statements that follow
+                if v is not UNK:
+                    known[st.targets[0].id] = v
             for name in _stores(st):
                 for k in [k for k in ge.env if k == name]:
                     del ge.env[k]
+                ge.aliases.pop(name, None) if name in known or not definite else None
+            ge.env.update(known)
 
 
 class _Resolve(ast.NodeTransformer):
@@ -352,3 +368,40 @@ def assigned_on_every_path(stmts: List[ast.stmt], name: str, target: ast.AST) ->
 
     block(list(stmts), False)
     return found['v']
+
+
+def first_exit(stmts, ge: GuardEval):
+    """the Return / Raise statements a function body can end in under ge: every exit reachable before (and including)
+    the first one that is reached on every execution.  -> list of (stmt, definite)"""
+    marks: dict = {}
+    out = []
+    for st in specialise(stmts, ge, marks):
+        if isinstance(st, (ast.Return, ast.Raise)):
+            d = marks.get(id(st), False)
+            out.append((st, d))
+            if d:
+                break
+    return out
+
+
+def spec_return(fn_node, ge_env: Dict[str, object], aliases: Dict[str, ast.AST], arg_bind: Dict[str, ast.AST]):
+    """value returned by a small helper when its branches are decided under ge_env (atoms) and aliases (locals of the
+    caller and of the helper that stand for an expression).  -> expression with the helper's parameters replaced by the
+    call's arguments and its own single-assignment locals resolved, or None when more than one return stays reachable"""
+    from .canon import Canon
+    inner = Canon(fn_node)
+    al = dict(aliases)
+    al.update(inner.aliases())
+    exits = first_exit(fn_node.body, GuardEval(ge_env, al))
+    rets = [st for st, _d in exits if isinstance(st, ast.Return)]
+    if len(exits) != 1 or len(rets) != 1 or rets[0].value is None:
+        return None
+    ge = GuardEval(ge_env, al)
+    val = resolve(inner.resolve(rets[0].value), ge)
+
+    class S(ast.NodeTransformer):
+        def visit_Name(self, n):
+            if isinstance(n.ctx, ast.Load) and n.id in arg_bind:
+                return copy.deepcopy(arg_bind[n.id])
+            return n
+    return resolve(S().visit(val), ge)
